@@ -29,7 +29,8 @@ import (
 
 // Op is one step of a history.
 type Op struct {
-	K   string `json:"k"`             // take | qrow | qidx | get | write | del | writec | delc | set | setx | adv | tick | faildb | out+ | out- | jit
+	K   string `json:"k"`             // pk | take | qrow | qidx | get | write | del | writec | delc | set | setx | adv | tick | faildb | out+ | out- | jit
+	S   string `json:"s,omitempty"`   // pk: name of the primary-key shape (first op of a history only; default "small")
 	Key string `json:"key,omitempty"` // k1 | k2 (row 1 / row 2); qidx always reads the index key of row 1
 	V   string `json:"v,omitempty"`   // write: v1 | v2
 	D   int    `json:"d,omitempty"`   // adv: seconds
@@ -46,6 +47,8 @@ func (o Op) String() string {
 		return fmt.Sprintf("adv(%ds)", o.D)
 	case "jit":
 		return "jit(" + jitterName[o.J] + ")"
+	case "pk":
+		return "pk(" + o.S + ")"
 	}
 	return o.K
 }
@@ -130,7 +133,11 @@ func (r *refT) String() string {
 		}
 		ks = append(ks, s)
 	}
-	return fmt.Sprintf("db{%s,%s} cache{%s} fail=%v out=%v/%d jit=%d ctx=%s", r.db["k1"], r.db["k2"], strings.Join(ks, ","), r.failNext, r.outage, r.outOps, r.jit, r.execLog)
+	sh := ""
+	if shape != &shapes[0] {
+		sh = "pk=" + shape.name + " "
+	}
+	return fmt.Sprintf(sh+"db{%s,%s} cache{%s} fail=%v out=%v/%d jit=%d ctx=%s", r.db["k1"], r.db["k2"], strings.Join(ks, ","), r.failNext, r.outage, r.outOps, r.jit, r.execLog)
 }
 
 // ---- system under test for one history ----
@@ -154,10 +161,12 @@ type sut struct {
 	cc   sqlc.CachedConn // sqlc.NewNodeConn: QueryRow / QueryRowIndex / GetCache / SetCache / Exec
 }
 
-func newSut(cluster bool) *sut {
+func newSut(cluster bool) *sut { return newSutWith(cluster, expiry, notFoundExpiry) }
+
+func newSutWith(cluster bool, exp, nfExp time.Duration) *sut {
 	env.reset()
 	db := newFakeDB()
-	opts := []cache.Option{cache.WithExpiry(expiry), cache.WithNotFoundExpiry(notFoundExpiry)}
+	opts := []cache.Option{cache.WithExpiry(exp), cache.WithNotFoundExpiry(nfExp)}
 	if cluster {
 		// cache.New / sqlc.NewConn over two nodes: cacheCluster dispatches every key by consistent hash
 		return &sut{be: env.cluster, db: db,
@@ -170,11 +179,11 @@ func newSut(cluster bool) *sut {
 }
 
 // outcome of a read, normalised: "row:<v>" | "notfound" | "dberr" | "err:<text>"
-func readOutcome(row *Row, err error, notFound error, wantID int64) string {
+func readOutcome(row *Row, err error, notFound error, wantPK string) string {
 	switch {
 	case err == nil:
-		if row.ID != wantID {
-			return fmt.Sprintf("row:%s(id=%d!)", row.V, row.ID)
+		if row.pk() != wantPK {
+			return fmt.Sprintf("row:%s(id=%s!)", row.V, row.pk())
 		}
 		return "row:" + row.V
 	case errors.Is(err, notFound):
@@ -227,7 +236,7 @@ func (s *sut) step(ref *refT, op Op, verbose bool) *failure {
 		var row Row
 		var err error
 		nf := error(sql.ErrNoRows)
-		id := rowIDOf(op.Key)
+		id := pkOf(op.Key) // the model's FindOne passes its typed primary key
 		switch op.K {
 		case "take":
 			nf = errNodeNF
@@ -239,7 +248,7 @@ func (s *sut) step(ref *refT, op Op, verbose bool) *failure {
 		case "get":
 			err = s.cc.GetCache(rk, &row)
 		}
-		obs.outcome = readOutcome(&row, err, nf, id)
+		obs.outcome = readOutcome(&row, err, nf, pkString(op.Key))
 		e := ref.ent[ck]
 		switch {
 		case during:
@@ -275,12 +284,14 @@ func (s *sut) step(ref *refT, op Op, verbose bool) *failure {
 		}
 	case "qidx":
 		var row Row
-		err := s.cc.QueryRowIndex(&row, rk, func(primary any) string { return fmt.Sprintf("c06:p:%v", primary) },
+		// keyer and primary query as goctl generates them: the key is prefix + %v of the primary key the
+		// cached layer hands over, the query gets that value as its argument, untouched
+		err := s.cc.QueryRowIndex(&row, rk, func(primary any) string { return fmt.Sprintf("%s%v", keyPrefix, primary) },
 			func(conn sqlx.SqlConn, v any) (any, error) { return conn.(*fakeDB).byName("a", v, sqlc.ErrNotFound) },
 			func(conn sqlx.SqlConn, v, primary any) error {
-				return conn.(*fakeDB).byPrimary(primaryID(primary), v, sqlc.ErrNotFound)
+				return conn.(*fakeDB).byPrimary(primary, v, sqlc.ErrNotFound)
 			})
-		obs.outcome = readOutcome(&row, err, sql.ErrNoRows, 1)
+		obs.outcome = readOutcome(&row, err, sql.ErrNoRows, pkString("k1"))
 		ei, ep := ref.ent[keyIx], ref.ent[keyP1]
 		switch {
 		case during:
@@ -318,13 +329,12 @@ func (s *sut) step(ref *refT, op Op, verbose bool) *failure {
 				writes = append(writes, written{keyIx, phLo, phHi})
 			default:
 				expect = "row:" + ref.db["k1"]
-				*ei = entry{kind: eVal, val: "1"}
+				*ei = entry{kind: eVal, val: ixJSON()}
 				*ep = entry{kind: eVal, val: ref.db["k1"]}
 				writes = append(writes, written{keyIx, valLo, valHi}, written{keyP1, valLo, valHi + indexGapSlack})
 			}
 		}
 	case "write", "del", "writec", "delc":
-		id := rowIDOf(op.Key)
 		isWrite := op.K == "write" || op.K == "writec"
 		keys := keysOfRow(op.Key)
 		var realKeys []string
@@ -338,9 +348,9 @@ func (s *sut) step(ref *refT, op Op, verbose bool) *failure {
 		stmt := func(conn sqlx.SqlConn) (sql.Result, error) {
 			d := conn.(*fakeDB)
 			if isWrite {
-				return d.upsert(id, rowNameOf(op.Key), op.V), nil
+				return d.upsert(op.Key, op.V), nil
 			}
-			return d.remove(id), nil
+			return d.remove(op.Key), nil
 		}
 		var res sql.Result
 		var err error
@@ -475,6 +485,12 @@ func (s *sut) step(ref *refT, op Op, verbose bool) *failure {
 			}
 		}
 		obs.outcome = fmt.Sprintf("retries:%d", len(s.attempts))
+	case "pk":
+		sh := shapeByName(op.S)
+		if sh == nil || len(s.be.contents()) != 0 || len(s.db.rows) != 0 {
+			return fail("harness", "pk(%s): unknown shape or not at the start of the history", op.S)
+		}
+		shape = sh
 	case "faildb":
 		s.db.failNext = true
 		ref.failNext = true
@@ -532,6 +548,17 @@ func (s *sut) step(ref *refT, op Op, verbose bool) *failure {
 	if s.db.failNext != ref.failNext {
 		return fail("harness", "failNext flag diverged after %v", op)
 	}
+	// the database is only ever asked for the exact primary key of the row being read
+	for _, a := range s.db.pkArgs {
+		row := op.Key
+		if op.K == "qidx" {
+			row = "k1"
+		}
+		if !denotesExactly(a, pkOf(row)) {
+			return fail("db-queried-with-inexact-primary-key:"+opTag, "%v queried the database with primary key %s, the row's primary key is %s", op, renderArg(a), renderArg(pkOf(row)))
+		}
+	}
+	s.db.pkArgs = nil
 	// harness-owned database must hold what the reference holds
 	for _, k := range []string{"k1", "k2"} {
 		got := ""
@@ -630,7 +657,7 @@ func (r *refT) coherent(k string, x entry) bool {
 	case x.kind == ePh:
 		return r.db[row] == ""
 	case k == keyIx:
-		return x.val == "1" // points at the primary key of row 1, whose own entry/query decides
+		return x.val == ixJSON() // points at the primary key of row 1, whose own entry/query decides
 	default:
 		return r.db[row] != "" && x.val == r.db[row]
 	}
@@ -730,6 +757,8 @@ func runHistory(path []Op, verbose, cluster bool) histResult {
 		env.initCluster()
 	}
 	var out histResult
+	shape = &shapes[0]
+	defer func() { shape = &shapes[0] }()
 	// The whole history runs as the driver thread of one vsched execution in sequential-driver
 	// mode: the cleaner's timing wheel and task runner (rewritten core/collection, core/threading)
 	// are controlled threads, the harness owns the wheel's ticker, and Quiesce() after an operation
@@ -893,6 +922,45 @@ func alphabet(cluster bool, maxFailedInval int, plainUnderOutage bool) func(dept
 	}
 }
 
+// alphabetPK: the sequential histories again for the other primary-key shapes. The first op picks
+// the shape (mega, huge, str; "small" is what the main search runs); then reads through every
+// entry point, writes/deletes of row 1, one value of row 2 (whose key is the lossy image of row
+// 1's), SetCache, expiry-sized clock advances and a failing query. No outages, no jitter menu:
+// those do not depend on what the key looks like.
+func alphabetPK(depth int, path []Op) []Op {
+	if len(path) == 0 {
+		var ops []Op
+		for _, sh := range shapes[1:] {
+			ops = append(ops, Op{K: "pk", S: sh.name})
+		}
+		return ops
+	}
+	a := foldPath(path)
+	ops := []Op{{K: "qidx"}, {K: "qrow", Key: "k1"}, {K: "take", Key: "k1"}, {K: "get", Key: "k1"}, {K: "qrow", Key: "k2"}, {K: "take", Key: "k2"}}
+	for _, v := range []string{"v1", "v2"} {
+		if a.db["k1"] != v {
+			ops = append(ops, Op{K: "write", Key: "k1", V: v})
+		}
+	}
+	ops = append(ops, Op{K: "del", Key: "k1"})
+	if a.db["k2"] != "v2" {
+		ops = append(ops, Op{K: "write", Key: "k2", V: "v2"})
+	}
+	if a.db["k2"] != "" {
+		ops = append(ops, Op{K: "del", Key: "k2"})
+	}
+	if a.db["k1"] != "" {
+		ops = append(ops, Op{K: "set", Key: "k1"}, Op{K: "setx", Key: "k1"})
+	}
+	half := int(expiry / time.Second / 2)
+	full := int(expiry / time.Second)
+	for _, d := range []int{half, full, int(notFoundExpiry / time.Second), full + 6} {
+		ops = append(ops, Op{K: "adv", D: d})
+	}
+	ops = append(ops, Op{K: "faildb"})
+	return ops
+}
+
 // HistCase is the replay artefact of a failing history.
 type HistCase struct {
 	Kind    string `json:"kind"`              // "history"
@@ -911,6 +979,10 @@ func pathString(p []Op) string {
 // maxFailedInval: invalidations that may fail per history; plain: also offer Exec with a background
 // context during outages (besides the request-context variant).
 func searchHistories(cfg *vlib.Config, r *vlib.Report, name string, cluster bool, depth, maxFailedInval int, plain bool, deadline time.Time) {
+	alpha := alphabet(cluster, maxFailedInval, plain)
+	if name == "histories-pk" {
+		alpha = alphabetPK
+	}
 	classes := map[string]int{}
 	tag := ""
 	if cluster {
@@ -921,7 +993,7 @@ func searchHistories(cfg *vlib.Config, r *vlib.Report, name string, cluster bool
 		Cfg:      cfg,
 		MaxDepth: depth,
 		Deadline: deadline,
-		Alphabet: alphabet(cluster, maxFailedInval, plain),
+		Alphabet: alpha,
 		Run: func(path []Op) vlib.RunResult {
 			res := runHistory(path, false, cluster)
 			if res.fail != nil && res.fail.class != "harness" {
